@@ -121,9 +121,15 @@ def timeout(duration, func, *args, **kwargs):
             ei = target_thread.exc_info
             # Python 2 had the three-argument raise statement; thanks to PEP
             # 3109 for showing how to convert that to valid Python 3 statements.
-            e = ei[0](ei[1])
+            # (the exception object itself: calling its class again with the object as the only
+            # argument fails for every constructor with another signature)
+            e = ei[1]
             e.__traceback__ = ei[2]
-            e.exc_info = target_thread.exc_info
+            try:
+                e.exc_info = target_thread.exc_info
+            except Exception:
+                # Student exception classes may refuse new attributes
+                pass
             raise e
 
 
